@@ -3,6 +3,7 @@ decoder entry points wrapped so that every call's arguments and result are recor
 import random
 
 import common
+common.memo_generator_polys()
 from common import hx
 
 _managers = {}
